@@ -54,8 +54,11 @@ Lemma multiline_noquote_one : forall c r l,
     multiline_noquote (c :: r) = c :: r.
 Proof.
   intros c r l Hnl Hl Hm. unfold multiline_noquote.
-  rewrite (splitlines_one c r Hnl). cbn [map join].
-  change (L " \" ++ [nl]) with [sp; ch 92; nl]. apply PureUtilsFacts.drop_last3_app.
+  apply (PureUtilsFacts.multiline_noquote_line c r l (splitlines_one c r Hnl) Hl).
+  change (L " " ++ [nl; ch 92]) with [sp; nl; ch 92] in Hm. change (L " " ++ [nl]) with [sp; nl].
+  unfold mem_c in *. cbn [existsb] in *.
+  apply orb_false_iff in Hm. destruct Hm as [H1 Hm]. apply orb_false_iff in Hm. destruct Hm as [H2 _].
+  rewrite H1, H2. reflexivity.
 Qed.
 
 Lemma replace_aux_no_char : forall x b fuel s,
